@@ -50,6 +50,21 @@ def h_decimal_special(ctx, scale):
         ctx.check("special / exponent-bearing Decimal is refused or written in plain notation", LEX_DEC.fullmatch(t) is not None)
 
 
+NONDEC = [float("nan"), float("inf"), float("-inf"), (0, (), "n"), (1, (), "F"), 10 ** 30, 1e-9, -0.0, 1e25, True]
+
+
+def h_decimal_foreign(ctx, scale):
+    """values that reach a Decimal element as float / int / tuple (the default overload of convert)"""
+    conv = Types.Decimal(scale)
+    k = ctx.choice("k", list(range(len(NONDEC))))
+    try:
+        held = conv.convert(NONDEC[k])
+    except REFUSE:
+        return
+    t = written(conv, held)
+    ctx.check("a value assigned as float / int / tuple is refused or written in plain notation", t is None or LEX_DEC.fullmatch(t) is not None)
+
+
 def h_decimal_text(ctx, scale, n):
     """values that come from reading any accepted text of n characters over digits, sign, separators"""
     conv = Types.Decimal(scale)
@@ -126,7 +141,7 @@ def h_string(ctx, cls, length, n):
         ctx.check("warn-only string is written whole", t == v)
 
 
-HARNESSES = dict(decimal=h_decimal, decimal_special=h_decimal_special, decimal_text=h_decimal_text, integer=h_integer,
+HARNESSES = dict(decimal_foreign=h_decimal_foreign, decimal=h_decimal, decimal_special=h_decimal_special, decimal_text=h_decimal_text, integer=h_integer,
                  integer_bool=h_integer_bool, bool=h_bool, oneof=h_oneof, string=h_string, write=c09.h_write)
 
 META = dict(
@@ -152,6 +167,7 @@ def instances(tier, seed):
         for e in exps:
             mk(f"decimal[{sc},{e}]", "decimal", dict(scale=sc, exp=e))
         mk(f"decimal_special[{sc}]", "decimal_special", dict(scale=sc))
+        mk(f"decimal_foreign[{sc}]", "decimal_foreign", dict(scale=sc))
     for n in ((1, 2, 3) if not full else (1, 2, 3, 4, 5)):
         mk(f"decimal_text[None,{n}]", "decimal_text", dict(scale=None, n=n), max_paths=200000, wall_s=900)
         if n <= 3 or full:
